@@ -15,20 +15,23 @@
     - [expand] = attr_value_from_name / XmlUnexpandedEntityReference::value (entity expansion).
     - derived accessors used by the dump: [doc_notations], [doc_unparsed_entities], [impl_eq].
 
-    The model follows the code of branch agent-pipeline, i.e. WITH the repairs
-    45f75dc (parameter entities: Error::InvalidData instead of unimplemented!, D07) and
-    eee9b52 (entity recursion detected during expansion, D09).  The behaviour of the pinned
-    code is kept next to it ([build_document_pinned], [expand_pinned]) for the refutation
+    The model follows /repo main as of 584b4c9 + ed2c470, i.e. WITH the repairs of this area
+    (bd92e3d: parameter entities give Error::InvalidData instead of unimplemented!, D07;
+    ed2c470: entity recursion detected during expansion, D09) and with builder-wf's
+    well-formedness checks in XmlDocument::new (unique attribute names, legal characters,
+    [check_entity_ref]: parsed / internal / non-recursive / declared entities, no < in attribute
+    values, replacement text matches `content`).  The behaviour WITHOUT the two repairs of this
+    area is kept next to it ([build_document_pinned], [expand_pinned]) for the refutation
     theorems of Properties/C03.v. *)
 From Coq Require Import List NArith Bool.
-From XmlRs Require Import Base.CPred Model.Peg Model.ParseActions.
+From XmlRs Require Import Base.CPred Model.Peg Model.ParseActions Gen.XmlcharGen Gen.GrammarXmlGen.
 Import ListNotations.
 Local Open Scope N_scope.
 
 (** ** results *)
 Inductive ierror :=
 | NotFoundReference (what : str)          (* undeclared entity, or character reference that is no char *)
-| InvalidData (what : str).               (* after 45f75dc / eee9b52: parameter entities, recursion *)
+| InvalidData (what : str).               (* after bd92e3d / ed2c470: parameter entities, recursion *)
 
 Inductive panic_site :=
 | PsParameterEntityDecl                   (* XmlDocumentTypeDeclaration::node, unimplemented! (pinned code) *)
@@ -129,9 +132,10 @@ Definition is_scalar (n : N) : bool := (n <? 55296) || ((57344 <=? n) && (n <=? 
 (** fn char_from_char10 / char_from_char16 *)
 Definition char_ref_err (num : str) (r : radix) : ierror :=
   NotFoundReference (match r with Dec => 35 :: num | Hex => 35 :: 120 :: num end).
+(** WFC Legal Character (3438313): char::from_u32(num) filtered by xmlchar::is_char *)
 Definition char_from (num : str) (r : radix) : ires N :=
   match parse_u32 r num with
-  | Some n => if is_scalar n then IOk n else IErr (char_ref_err num r)
+  | Some n => if is_scalar n && eval is_char n then IOk n else IErr (char_ref_err num r)
   | None => IErr (char_ref_err num r)
   end.
 
@@ -145,46 +149,153 @@ Definition predefined (name : str) : option entity :=
   else if str_eqb name [97;112;111;115] then Some (builtin_entity name [39])
   else if str_eqb name [113;117;111;116] then Some (builtin_entity name [34])
   else None.
-Definition lookup_entity (ents : list entity) (name : str) : ires entity :=
+(** the boolean says whether the entity is a declared one ([parent_id] is Some) *)
+Definition lookup_entity2 (ents : list entity) (name : str) : ires (entity * bool) :=
   match find (fun e => str_eqb (en_name e) name) ents with
-  | Some e => IOk e
-  | None => match predefined name with Some e => IOk e | None => IErr (NotFoundReference name) end
+  | Some e => IOk (e, true)
+  | None => match predefined name with Some e => IOk (e, false) | None => IErr (NotFoundReference name) end
   end.
+Definition lookup_entity (ents : list entity) (name : str) : ires entity :=
+  ibind (lookup_entity2 ents name) (fun x => IOk (fst x)).
+
+(** ** fn check_entity_ref (builder-wf, c00bacf .. ba6ea81): the well-formedness constraints on
+    the replacement text of an entity referred to in an attribute value ([attribute]) or in
+    content.  [seen] is the HashMap name -> "check complete"; [ext] = Context::external_subset
+    (an undeclared entity may then come from the external subset, which is not read).
+    One unit of fuel per entity entered; [length ents + 2] always suffices because an entity
+    whose name is in [seen] is not entered again. *)
+Fixpoint seen_get (seen : list (str * bool)) (n : str) : option bool :=
+  match seen with
+  | [] => None
+  | (k, b) :: seen' => if str_eqb k n then Some b else seen_get seen' n
+  end.
+
+Definition d_ent_value_text (v : ent_value) : str :=        (* Display for XmlEntityValue *)
+  match v with
+  | XvCharacter num r => match r with Dec => 38 :: 35 :: num ++ [59] | Hex => 38 :: 35 :: 120 :: num ++ [59] end
+  | XvEntity n => 38 :: n ++ [59]
+  | XvParameter n => 37 :: n ++ [59]
+  | XvText s => s
+  end.
+
+(** the text whose match against `content` is required: character references replaced *)
+Fixpoint replacement_text (vs : list ent_value) : ires str :=
+  match vs with
+  | [] => IOk []
+  | XvCharacter num r :: vs' => ibind (char_from num r) (fun c => ibind (replacement_text vs') (fun t => IOk (c :: t)))
+  | v :: vs' => ibind (replacement_text vs') (fun t => IOk (d_ent_value_text v ++ t))
+  end.
+
+(** [matches!(xml_parser::content(text), Ok(("", _)))] *)
+Definition content_full (text : str) : bool :=
+  match run G_xml G_xml_R nt_content text with Ok (_, []) => true | _ => false end.
+
+Definition is_some {A} (o : option A) : bool := match o with Some _ => true | None => false end.
+
+Fixpoint check_entity_ref (fuel : nat) (ents : list entity) (ext attribute : bool)
+         (seen : list (str * bool)) (e : entity) (declared : bool) : ires (list (str * bool)) :=
+  match fuel with
+  | O => IOof
+  | S f =>
+    if negb declared then IOk seen
+    else if is_some (en_notation e) then IErr (InvalidData (en_name e))
+    else if attribute && is_some (en_system e) then IErr (InvalidData (en_name e))
+    else match seen_get seen (en_name e) with
+    | Some true => IOk seen
+    | Some false => IErr (InvalidData (en_name e))
+    | None =>
+      let vs := match en_values e with Some l => l | None => [] end in
+      ibind (if attribute then IOk tt
+             else ibind (replacement_text vs) (fun t =>
+                  if content_full t then IOk tt else IErr (InvalidData (en_name e)))) (fun _ =>
+      ibind ((fix go (vs : list ent_value) (seen : list (str * bool)) : ires (list (str * bool)) :=
+                match vs with
+                | [] => IOk seen
+                | v :: vs' =>
+                  ibind (match v with
+                         | XvCharacter num r => ibind (char_from num r) (fun c => IOk (N.eqb c 60, seen))
+                         | XvEntity n =>
+                           match lookup_entity2 ents n with
+                           | IOk (e', d') =>
+                             ibind (check_entity_ref f ents ext attribute seen e' d') (fun s' => IOk (false, s'))
+                           | IErr er => if ext then IOk (false, seen) else IErr er
+                           | IPanic p => IPanic p
+                           | IOof => IOof
+                           end
+                         | XvParameter _ => IOk (false, seen)
+                         | XvText t => IOk (existsb (N.eqb 60) t, seen)
+                         end) (fun x =>
+                  if attribute && fst x then IErr (InvalidData (en_name e)) else go vs' (snd x))
+                end) vs ((en_name e, false) :: seen)) (fun seen2 =>
+      IOk ((en_name e, true) :: seen2)))
+    end
+  end.
+Definition check_fuel (ents : list entity) : nat := length ents + 2.
+
+(** an entity reference in an attribute value or in content: Context::entity, then the check *)
+Definition resolve_ref (ents : list entity) (ext attribute : bool) (name : str) : ires entity :=
+  ibind (lookup_entity2 ents name) (fun x =>
+  ibind (check_entity_ref (check_fuel ents) ents ext attribute [] (fst x) (snd x)) (fun _ => IOk (fst x))).
 
 (** ** attributes *)
 (** XmlAttributeValue::new *)
-Definition build_avalue (ents : list entity) (v : att_value) : ires (option avalue) :=
+Definition build_avalue (ents : list entity) (ext : bool) (v : att_value) : ires (option avalue) :=
   match v with
   | AvReference (RefChar num r) => ibind (char_from num r) (fun c => IOk (Some (XaChar [c] num r)))
-  | AvReference (RefEntity name) => ibind (lookup_entity ents name) (fun e => IOk (Some (XaEntity e)))
+  | AvReference (RefEntity name) => ibind (resolve_ref ents ext true name) (fun e => IOk (Some (XaEntity e)))
   | AvText [] => IOk None
   | AvText s => IOk (Some (XaText s))
   end.
-Fixpoint build_avalues (ents : list entity) (l : list att_value) : ires (list avalue) :=
+Fixpoint build_avalues (ents : list entity) (ext : bool) (l : list att_value) : ires (list avalue) :=
   match l with
   | [] => IOk []
-  | v :: l' => ibind (build_avalue ents v) (fun a =>
-               ibind (build_avalues ents l') (fun r =>
+  | v :: l' => ibind (build_avalue ents ext v) (fun a =>
+               ibind (build_avalues ents ext l') (fun r =>
                IOk (match a with Some x => x :: r | None => r end)))
   end.
 (** XmlAttribute::node *)
-Definition build_attr (ents : list entity) (a : attribute) : ires attr :=
+Definition build_attr (ents : list entity) (ext : bool) (a : attribute) : ires attr :=
   let (local, prefix) := attribute_name (at_name a) in
-  ibind (build_avalues ents (at_value a)) (fun vs => IOk (Attr local prefix vs)).
-Fixpoint build_attrs (ents : list entity) (l : list attribute) : ires (list attr) :=
+  ibind (build_avalues ents ext (at_value a)) (fun vs => IOk (Attr local prefix vs)).
+
+(** derived PartialEq of xml_nom::model::QName and parser::model::AttributeName *)
+Definition qname_eqb (a b : qname) : bool :=
+  match a, b with
+  | Prefixed p l, Prefixed p' l' => str_eqb p p' && str_eqb l l'
+  | Unprefixed n, Unprefixed n' => str_eqb n n'
+  | _, _ => false
+  end.
+Definition att_name_eqb (a b : att_name) : bool :=
+  match a, b with
+  | AnDefaultNamespace, AnDefaultNamespace => true
+  | AnNamespace s, AnNamespace s' => str_eqb s s'
+  | AnQName q, AnQName q' => qname_eqb q q'
+  | _, _ => false
+  end.
+
+(** the attribute loop of XmlElement::node; [before] = the attributes already taken, for the
+    WFC Unique Att Spec test of affceca *)
+Fixpoint build_attrs_from (ents : list entity) (ext : bool) (before : list attribute) (l : list attribute)
+  : ires (list attr) :=
   match l with
   | [] => IOk []
-  | a :: l' => ibind (build_attr ents a) (fun x => ibind (build_attrs ents l') (fun r => IOk (x :: r)))
+  | a :: l' =>
+    if existsb (fun v => att_name_eqb (at_name v) (at_name a)) before
+    then IErr (InvalidData (fst (attribute_name (at_name a))))
+    else ibind (build_attr ents ext a) (fun x =>
+         ibind (build_attrs_from ents ext (before ++ [a]) l') (fun r => IOk (x :: r)))
   end.
+Definition build_attrs (ents : list entity) (ext : bool) (l : list attribute) : ires (list attr) :=
+  build_attrs_from ents ext [] l.
 
 (** ** elements: XmlElement::node *)
 Definition text_item (o : option str) : list item :=
   match o with Some (c :: s) => [ItText (c :: s)] | _ => [] end.
 
-Fixpoint build_element (ents : list entity) (e : element) : ires item :=
+Fixpoint build_element (ents : list entity) (ext : bool) (e : element) : ires item :=
   match e with
   | Element n attrs c =>
-    ibind (build_attrs ents attrs) (fun attrs' =>
+    ibind (build_attrs ents ext attrs) (fun attrs' =>
     match c with
     | None => IOk (ItElement (fst (qname_parts n)) (snd (qname_parts n)) attrs' [])
     | Some (head, cells) =>
@@ -193,9 +304,9 @@ Fixpoint build_element (ents : list entity) (e : element) : ires item :=
                 | [] => IOk []
                 | (ch, tail) :: l' =>
                   ibind (match ch with
-                         | CsElement e' => build_element ents e'
+                         | CsElement e' => build_element ents ext e'
                          | CsReference (RefChar num r) => ibind (char_from num r) (fun c => IOk (ItCharRef [c] num r))
-                         | CsReference (RefEntity name) => ibind (lookup_entity ents name) (fun x => IOk (ItUnexpanded x))
+                         | CsReference (RefEntity name) => ibind (resolve_ref ents ext false name) (fun x => IOk (ItUnexpanded x))
                          | CsCData s => IOk (ItCData s)
                          | CsPI p => IOk (ItPI p)
                          | CsComment s => IOk (ItComment s)
@@ -225,13 +336,14 @@ Definition build_notation (d : decl_notation) : notation :=         (* XmlNotati
   | NiPublic p => Notation (dn_name d) None (Some p)
   end.
 (** XmlDeclarationAttDef::new: default values are resolved while the document type declaration is
-    still under construction, so only the predefined entities are visible ([ents] = []) *)
+    still under construction, so only the predefined entities are visible ([ents] = []) and
+    Context::external_subset answers false *)
 Definition build_attdef (d : att_def) : ires attdef :=
   let (local, prefix) := match ad_name d with DanAttr q => qname_parts q | DanNamespace a => attribute_name a end in
   ibind (match ad_value d with
          | AdRequired => IOk XdRequired
          | AdImplied => IOk XdImplied
-         | AdValue f vs => ibind (build_avalues [] vs) (fun vs' => IOk (XdValue f vs'))
+         | AdValue f vs => ibind (build_avalues [] false vs) (fun vs' => IOk (XdValue f vs'))
          end) (fun dv => IOk (AttDefI local prefix (ad_ty d) dv)).
 Fixpoint build_attdefs (l : list att_def) : ires (list attdef) :=
   match l with
@@ -246,7 +358,19 @@ Definition s_percent_sp (n : str) : str := 37 :: 32 :: n.             (* format!
 Definition s_pe_ref (n : str) : str := 37 :: n ++ [59].                (* format!("%{};", name) *)
 Definition s_ge_ref (n : str) : str := 38 :: n ++ [59].                (* format!("&{};", name) *)
 
-(** [pinned] selects the code before 45f75dc (unimplemented!) *)
+(** 7003a5e / 584b4c9: when a general entity with a literal value is declared, a parameter-entity
+    reference in the value is refused and every character reference must denote a Char *)
+Fixpoint check_entity_values (l : list entity_value) : ires unit :=
+  match l with
+  | [] => IOk tt
+  | EvPeReference v :: _ => IErr (InvalidData (s_pe_ref v))
+  | EvReference (RefChar num r) :: l' => ibind (char_from num r) (fun _ => check_entity_values l')
+  | _ :: l' => check_entity_values l'
+  end.
+Definition check_entity_decl (d : entity_def) : ires unit :=
+  match d with EdValue l => check_entity_values l | EdExternal _ _ => IOk tt end.
+
+(** [pinned] selects the code before bd92e3d (unimplemented!) *)
 Fixpoint build_subset (pinned : bool) (l : list int_subset) : ires (list dtd_item) :=
   match l with
   | [] => IOk []
@@ -256,7 +380,8 @@ Fixpoint build_subset (pinned : bool) (l : list int_subset) : ires (list dtd_ite
       ibind (build_attlist d) (fun a => ibind (build_subset pinned l') (fun r => IOk (DtAttList a :: r)))
     | IsMarkup (MkComment _) | IsMarkup (MkElement _) | IsWhitespace _ => build_subset pinned l'
     | IsMarkup (MkEntity (DeGeneral n d)) =>
-      ibind (build_subset pinned l') (fun r => IOk (DtEntity (build_entity n d) :: r))
+      ibind (check_entity_decl d) (fun _ =>
+      ibind (build_subset pinned l') (fun r => IOk (DtEntity (build_entity n d) :: r)))
     | IsMarkup (MkEntity (DeParameter n _)) =>
       if pinned then IPanic PsParameterEntityDecl else IErr (InvalidData (s_percent_sp n))
     | IsMarkup (MkNotation d) => ibind (build_subset pinned l') (fun r => IOk (DtNotation (build_notation d) :: r))
@@ -286,13 +411,20 @@ Definition dt_pis (d : doctype) : list ppi :=
 Definition misc_items (l : list misc) : list item :=                  (* add_misc *)
   flat_map (fun m => match m with MiComment s => [ItComment s] | MiPI p => [ItPI p] | MiWhitespace _ => [] end) l.
 
+(** Context::external_subset: declarations may come from an external subset, which is not read *)
+Definition external_subset (standalone : option bool) (dt : option doctype) : bool :=
+  negb (match standalone with Some true => true | _ => false end)
+  && match dt with Some x => is_some (dt_system x) | None => false end.
+
 Definition build_document_gen (pinned : bool) (d : pdoc) : ires document :=
   let p := d_prolog d in
   ibind (match pr_declaration_doc p with
          | Some dd => ibind (build_doctype pinned dd) (fun x => IOk (Some x))
          | None => IOk None
          end) (fun dt =>
-  ibind (build_element (match dt with Some x => dt_entities x | None => [] end) (d_element d)) (fun el =>
+  ibind (build_element (match dt with Some x => dt_entities x | None => [] end)
+                       (external_subset (match pr_declaration_xml p with Some x => dx_standalone x | None => None end) dt)
+                       (d_element d)) (fun el =>
   IOk (Doc (misc_items (pr_heads p)
             ++ (match dt with Some x => [ItDocType x] | None => [] end)
             ++ misc_items (pr_tails p) ++ [el] ++ misc_items (d_miscs d))
@@ -329,8 +461,8 @@ Definition doc_entities (d : document) : list entity :=
 Definition normalize_ws (s : str) : str :=
   map (fun c => if N.eqb c 13 || N.eqb c 10 || N.eqb c 9 then 32 else c) s.
 
-(** [checked] = the code after eee9b52 (a name already on the path of the expansion is an
-    error); [pinned_pe] = the code before 45f75dc.  One unit of fuel per entity entered. *)
+(** [checked] = the code after ed2c470 (a name already on the path of the expansion is an
+    error); [pinned_pe] = the code before bd92e3d.  One unit of fuel per entity entered. *)
 Fixpoint expand_gen (checked pinned_pe : bool) (fuel : nat) (ents : list entity) (path : list str) (name : str)
   : ires str :=
   match fuel with
